@@ -390,3 +390,31 @@ def collection_roundtrip(v, tname, dcls, acls, prop="C01", label_fields=()):
     if n_paths == 0:
         obls.append(Obligation(f"{base}/returns", "post", [z3.BoolVal(True)]))
     return obls
+
+
+def load_side_obligations(v, adapter_cls, aoef_cls, accepts, prop="C04"):
+    """AOEF loading as a construction path: the REAL assemble_soundevent on an ARBITRARY stored object (nothing assumed about its
+    numbers or references) -- every normal return must satisfy `accepts(ex, y, path)` (a z3 Bool: the class invariant), i.e. a stored
+    object that violates the invariant cannot be loaded."""
+    m_ad, c_ad, _ = v.repo.class_def(adapter_cls)
+    bg = []
+    ex = Exec(v.repo, m_ad, v.handlers, v.inline, "R", True, 300, bg, None, v.trace)
+    p, inst = adapter_heap(v, ex)
+    selfv = inst[adapter_cls]
+    sb = StubBuilder(v.repo, stub_resolver(v.repo))
+    a = SymBuilder.make_obj(sb, aoef_cls, "stored", ())
+    bg += sb.wf
+    short = adapter_cls.rsplit(".", 1)[1]
+    base = f"{prop}/aoef-load/{short}"
+    fm, fn_load, _, fq = v.repo.find_method(adapter_cls, "assemble_soundevent")
+    loaded = ex.call_repo_function(fm, fn_load, [selfv, a], {}, p, qual=fq + ".assemble_soundevent", cls=fq)
+    obls = []
+    for k, (q, y) in enumerate(loaded):
+        goal = accepts(ex, y, q)
+        obls.append(Obligation(f"{base}/loaded-object-satisfies-the-invariant#{k + 1}", "post", list(ex.bg) + q.cond + [z3.Not(goal)],
+                               inputs={"stored": a}, meta=dict(adapter=short)))
+        obls.append(Obligation(f"{base}/cover-load#{k + 1}", "cover", list(ex.bg) + q.cond, expect="sat", inputs={"stored": a}))
+    if not loaded:
+        obls.append(Obligation(f"{base}/cover-load", "cover", [z3.BoolVal(False)], expect="sat"))
+    v.functions_under_contract[adapter_cls + ".assemble_soundevent"] = "executed"
+    return obls
